@@ -7,7 +7,9 @@ export NUMBA_CACHE_DIR="${NUMBA_CACHE_DIR:-$PWD/.cache/numba}"
 /venv/bin/python -W ignore -c "from vk import translate as T; r=T.regenerate(); print({k:v for k,v in r.items() if not k.startswith('_')})"
 cd lean
 lake build skdriver
-lake build SpecKitV
+# the whole library (every theorem file) is pre-built so that the checks only re-check what a source edit touches; a module that does not build
+# here is not fatal for setup: the property that owns it reports it as a broken obligation with its own failing-input search
+lake build SpecKitV || echo "setup: some theorem modules did not build (reported by the checks that own them)"
 cd ..
 /venv/bin/python -W ignore -c "
 import numpy as np, warnings
